@@ -255,15 +255,15 @@ def judge_c19(res, arch, plan, rate):
     open_now, peak = 0, 0
     live = set()
     for ev in w.log:
-        if ev[0] == 'connect':
+        if ev[0] in ('established', 'accept'):
             live.add(ev[1])
             peak = max(peak, len(live))
         elif ev[0] == 'close':
             live.discard(ev[1])
-    maxc = 3 if rate else 1
+    maxc = 3 if rate else initial_conns(arch)   # the SSH-1 fallback runs while the first (SSH-2) connection is still held
     if peak > maxc:
         probs.append(('too-many-concurrent', 'peak %d concurrent connections > %d' % (peak, maxc)))
-    leaked = [s.fd for s in w.sockets if not s.closed and (s.conn is not None or s.listening or s.addr is not None)]
+    leaked = [s.fd for s in w.sockets if not s.closed]
     if leaked:
         probs.append(('socket-left-open', '%d sockets not closed at exit: fds %s' % (len(leaked), leaked[:5])))
     return probs
